@@ -143,6 +143,7 @@ type dent struct {
 	prof      bool // references the shared profile profiles/shared.yaml
 	vstyle    int  // validity block style, constant over the history
 	vver      int  // edits of the validity block within its style (another end date / duration)
+	serial    bool // the configuration fixes a serial number (two entities may fix the same one: serial numbers are not aliases)
 	layout    int  // 0: e<i>.yaml, 1: sub/e<i>.yml, 2: deep/er/e<i>.json-free yaml with explicit alias in x<i>.yaml
 }
 
@@ -168,8 +169,20 @@ func (e dent) pemPath(i int) string { return e.stem(i) + ".pem" }
 // version of the shared profile: it contributes one non-optional extension 1.2.4.<profVersion> to every entity that references it
 var profVersion int
 
+// further states of the shared profile: it demands an attribute (O) no entity has - every entity that references it is then
+// rejected and the whole run must be refused -, and it carries a validity that has already ended, which entities without a
+// validity block of their own inherit
+var profStrict, profExpired bool
+
 func profileYaml() string {
-	return fmt.Sprintf("version: 1\nname: shared\nextensions:\n  - custom:\n      oid: 1.2.4.%d\n      raw: \"!empty\"\n", profVersion)
+	s := "version: 1\nname: shared\n"
+	if profExpired {
+		s += "validity:\n  from: 2020-01-01\n  duration: 1y\n"
+	}
+	if profStrict {
+		s += "subjectAttributes:\n  allowOther: false\n  attributes:\n    - attribute: CN\n    - attribute: O\n"
+	}
+	return s + fmt.Sprintf("extensions:\n  - custom:\n      oid: 1.2.4.%d\n      raw: \"!empty\"\n", profVersion)
 }
 
 func (e dent) yaml(i int) string {
@@ -179,6 +192,9 @@ func (e dent) yaml(i int) string {
 	}
 	if e.layout == 2 {
 		s += fmt.Sprintf("alias: e%d\n", i)
+	}
+	if e.serial {
+		s += fmt.Sprintf("serialNumber: %d\n", 1000+i%2)
 	}
 	switch e.vstyle {
 	case 0:
@@ -217,23 +233,32 @@ func relDuration(v int) string {
 	return fmt.Sprintf("%dy", 30+v)
 }
 
+// the zone in which the tool reads the dates of the configuration files (the process's local zone)
+var dirLoc = time.UTC
+
 // expected end of validity (ok = false: run-relative, only the length is known)
 func (e dent) wantNotAfter() (time.Time, bool) {
+	if e.prof && profExpired && e.vstyle == 3 {
+		return time.Date(2021, 1, 1, 0, 0, 0, 0, dirLoc), true
+	}
 	switch e.vstyle {
 	case 0:
-		return time.Date(2090+e.vver, 1, 1, 0, 0, 0, 0, time.UTC), true
+		return time.Date(2090+e.vver, 1, 1, 0, 0, 0, 0, dirLoc), true
 	case 1:
-		return time.Date(2091+e.vver, 2, 3, 0, 0, 0, 0, time.UTC), true
+		return time.Date(2091+e.vver, 2, 3, 0, 0, 0, 0, dirLoc), true
 	case 4:
-		return time.Date(2024, 2, 29, 0, 0, 0, 0, time.UTC).AddDate(40, 1+e.vver, 0), true
+		return time.Date(2024, 2, 29, 0, 0, 0, 0, dirLoc).AddDate(40, 1+e.vver, 0), true
 	case 5:
-		return time.Date(2020, 1, 1, 0, 0, 0, 0, time.UTC).AddDate(1, 0, e.vver), true
+		return time.Date(2020, 1, 1, 0, 0, 0, 0, dirLoc).AddDate(1, 0, e.vver), true
 	}
 	return time.Time{}, false
 }
 
 // length of a run-relative validity applied to a start date
 func (e dent) relEnd(from time.Time) (time.Time, bool) {
+	if e.vstyle == 3 && !(e.prof && profExpired) {
+		return from.AddDate(5, 0, 0), true // no validity anywhere: five years from the moment of the run
+	}
 	if e.vstyle != 2 {
 		return time.Time{}, false
 	}
@@ -257,7 +282,11 @@ func (e dent) coq() string {
 		vis += 1000 * (profVersion + 1) // the visible content includes what the profile contributes
 	}
 	vis += 100000 * e.vver // the validity block is part of the visible content
-	return fmt.Sprintf("(mkCfg %s %d %d 0 %s %s true %s true)", iss, e.subj, vis, ktn(e.krsa), ktn(e.srsa), bs(e.vstyle != 5))
+	inheritsExpired := e.prof && profExpired && e.vstyle == 3
+	if inheritsExpired {
+		vis += 500
+	}
+	return fmt.Sprintf("(mkCfg %s %d %d 0 %s %s %s %s true)", iss, e.subj, vis, ktn(e.krsa), ktn(e.srsa), bs(!(e.prof && profStrict)), bs(e.vstyle != 5 && !inheritsExpired))
 }
 
 type fileView struct {
@@ -453,6 +482,10 @@ func oneHistory(h int, faults bool) {
 			ents[i].vstyle = 5
 		}
 		ents[i].layout = rng.Intn(3)
+		ents[i].serial = rng.Intn(3) == 0
+		if ents[i].prof && rng.Intn(2) == 0 {
+			ents[i].vstyle = 3 // no validity of its own: the profile's applies
+		}
 	}
 	for i := range ents {
 		signer := i
@@ -466,7 +499,7 @@ func oneHistory(h int, faults bool) {
 	}
 	order = map[int]int{}
 	nreq, nuser := 0, 0
-	profVersion = 0
+	profVersion, profStrict, profExpired = 0, false, rng.Intn(3) == 0 // a third of the histories start with a profile whose validity has ended
 	m["profiles/shared.yaml"] = &fstest.MapFile{Data: []byte(profileYaml()), Mode: 0644, ModTime: dtm(0)}
 	var ops, obs []string
 	prev := map[int]fileView{}
@@ -477,7 +510,7 @@ func oneHistory(h int, faults bool) {
 	record := func(res string, w []string) {
 		o, cur := observeDir(m, prev, ents)
 		prev = cur
-		code := map[string]int{"-": 0, "ok": 1, "err": 2, "panic": 3, "died": 4}[res]
+		code := map[string]int{"-": 0, "ok": 1, "err": 2, "panic": 3, "died": 4, "refused": 6}[res]
 		obs = append(obs, fmt.Sprintf("(%d, [%s], %s)", code, strings.Join(w, ";"), o))
 	}
 	steps := ne + 3 + rng.Intn(9)
@@ -527,7 +560,7 @@ func oneHistory(h int, faults bool) {
 				}()
 				d := filesystem.NewFilesystemDatabase(l)
 				if err := d.Open(); err != nil {
-					res = "err"
+					res = "refused"
 					return
 				}
 				plan, err := db.PlanBulkUpdate(d, db.UpdateStrategy(strat))
@@ -598,13 +631,20 @@ func oneHistory(h int, faults bool) {
 		case r < 69:
 			putcfg(i)
 			ops = append(ops, fmt.Sprintf("U (OpTouchCfg %d)", i))
-		case r < 72 && rng.Intn(2) == 0: // the entity starts or stops referencing the shared profile (an edit of its own file)
+		case r < 71: // the entity starts or stops referencing the shared profile (an edit of its own file)
 			ents[i].prof = !ents[i].prof
 			putcfg(i)
 			ops = append(ops, fmt.Sprintf("U (OpEditCfg %d %s)", i, ents[i].coq()))
-		case r < 72: // the shared profile is edited: one file changes, every entity that references it has a new effective configuration
+		case r < 76: // the shared profile is edited: one file changes, every entity that references it has a new effective configuration
 			clock++
-			profVersion++
+			switch rng.Intn(4) {
+			case 0:
+				profStrict = !profStrict
+			case 1:
+				profExpired = !profExpired
+			default:
+				profVersion++
+			}
 			m["profiles/shared.yaml"] = &fstest.MapFile{Data: []byte(profileYaml()), Mode: 0644, ModTime: dtm(clock)}
 			var l []string
 			for j := range ents {
@@ -616,11 +656,11 @@ func oneHistory(h int, faults bool) {
 			record("-", nil)
 			lastOk = false
 			continue
-		case r < 79:
+		case r < 80:
 			clock++
 			delete(m, ents[i].pemPath(i))
 			ops = append(ops, fmt.Sprintf("U (OpDeleteFile %d)", i))
-		case r < 80: // the entity is removed altogether (its subordinates now name an issuer nobody defines)
+		case r < 81: // the entity is removed altogether (its subordinates now name an issuer nobody defines)
 			clock++
 			delete(m, ents[i].pemPath(i))
 			delete(m, ents[i].cfgPath(i))
